@@ -21,7 +21,8 @@ class View:
         self.ref = ref if ref is not None else prog.ref_run(sel, pre, debug_on, args)
         self.status = {i: self.ref[i][0] for i in self.ref}
         self.src_lines, self.src_file = src_lines or {}, src_file
-        self.prog_expects_error = False
+        self.prog_expects_error = "error" in self.status.values()
+        self.case: dict = {}
         tr = self.trace
         self.enters: Dict[str, List[int]] = {}
         self.exits: Dict[str, List[int]] = {}
@@ -68,15 +69,42 @@ class View:
         raise ValueError(v)
 
     def finished_before(self, d: int, t: int) -> bool:
-        """dependency d (index) is 'done' from the scheduler's point of view before trace position t."""
+        """dependency d (index) is 'done' from the scheduler's point of view before trace position t.
+        Judged on what actually happened to d (ran / was deactivated), so that a wrong activation decision is
+        reported once, by the property that owns it (C10 / C03)."""
         st = self.status[d]
         nid = self.ids[d]
-        if st in ("pre", "skip"):
-            return True
-        if st == "deact":
-            return nid in self.deact and self.deact[nid] < t
-        ex = self.exits.get(nid)
-        return bool(ex) and ex[0] < t and self.trace[ex[0]][3] == "ok"
+        if nid in self.dispatch:
+            ex = self.exits.get(nid)
+            return bool(ex) and ex[0] < t and self.trace[ex[0]][3] == "ok"
+        if nid in self.deact:
+            return self.deact[nid] < t
+        return st in ("pre", "skip")
+
+    def actual_args(self, i: int, t: int, serial: int):
+        """Arguments node i must receive when entered at t, given which of its dependencies actually ran."""
+        n = self.prog.nodes[i]
+        pre = {j: r[1][2] for j, r in self.ref.items() if r[0] == "pre"}
+
+        def val(e):
+            if e.src < 0:
+                return self.concrete(self.ref_param(-1 - e.src), serial)
+            nid = self.ids[e.src]
+            if e.src in pre:
+                return Tok(nid, pre[e.src], tuple(e.path))
+            ex = self.exits.get(nid)
+            if ex and ex[0] < t and self.trace[ex[0]][3] == "ok" and self.trace[ex[0]][2] == serial:
+                return Tok(nid, serial, tuple(e.path))
+            return None
+
+        a = tuple(val(e) for e in n.edges if e.kind == "pos") + tuple(n.consts)
+        kw = {(f"k{e.src}" if e.src >= 0 else f"p{-1 - e.src}"): val(e) for e in n.edges if e.kind == "kw"}
+        return a, kw
+
+    def ref_param(self, k: int):
+        from .gprog import NODEFAULT
+        nm, d = self.prog.params[k]
+        return ("const", d) if d != NODEFAULT else ("missing", nm)
 
     def ready(self, t: int) -> List[int]:
         out = []
@@ -109,14 +137,10 @@ def mon_c02(v: View) -> List[dict]:
         for t in ts:
             e = v.trace[t]
             for d in v.prog.deps(i):
-                if v.status[d] in ("run", "deact") and not v.finished_before(d, t):
+                if not v.finished_before(d, t):
                     out.append(V("premature_start", f"{nid} entered at {t} before its dependency {v.ids[d]} had finished",
                                  node=nid, dep=v.ids[d]))
-            exp = v.ref[i][2]
-            if exp is None:
-                continue
-            ea = tuple(v.concrete(x, e[2]) for x in exp[0])
-            ek = {k: v.concrete(x, e[2]) for k, x in exp[1].items()}
+            ea, ek = v.actual_args(i, t, e[2])
             if tuple(e[5]) != ea or e[6] != ek:
                 out.append(V("wrong_arguments", f"{nid} received args={e[5]!r} kwargs={e[6]!r}, expected args={ea!r} kwargs={ek!r}",
                              node=nid))
@@ -347,8 +371,10 @@ def mon_c09(v: View) -> List[dict]:
 # ------------------------------------------------------------------------------------------- C14
 
 
-def mon_c14(v: View, *, location_known: bool = True) -> List[dict]:
+def mon_c14(v: View) -> List[dict]:
     from tawazi.errors import TawaziBaseException
+
+    location_known = not getattr(v, "case", {}).get("noloc", False)
 
     out = []
     tr = v.trace
@@ -356,7 +382,7 @@ def mon_c14(v: View, *, location_known: bool = True) -> List[dict]:
     oc = v.res.outcome
     exc = v.res.exc
     if not failed:
-        if oc == "raise":
+        if oc == "raise" and not v.prog_expects_error:
             out.append(V("internal_error", f"call raised {type(exc).__name__}: {exc} although no node failed", exc=type(exc).__name__))
         return out
     stop = failure_observed_at(v)
@@ -406,7 +432,7 @@ def mon_c14(v: View, *, location_known: bool = True) -> List[dict]:
     if stop is not None:
         for t in range(stop + 1, len(tr)):
             e = tr[t]
-            if e[0] in ("submit", "ensure"):
+            if e[0] == "ensure" or (e[0] == "submit" and e[2] == "t"):
                 out.append(V("dispatch_after_failure", f"{e[0]} of {e[1]} at {t} after the failure was observed at {stop}", node=str(e[1]), what=e[0]))
             elif e[0] == "enter":
                 i = v.idx.get(e[1])
